@@ -35,6 +35,18 @@ Theorem C10_sum_exact : forall inner ps, 0 <= inner -> pcts_ok ps -> Forall (fun
   let '(n, d) := sum_num ps in d * 100 * sum_px inner ps = inner * n.
 Proof. exact sum_exact. Qed.
 
+(* groups: the group's box nests in the section's content box, its Outlook cells fit into it, and what a group column hands to its
+   images and dividers is derived from the GROUP's box (to the nearest pixel), whatever the group's own width is *)
+Theorem C10_group_le_section : forall inner p, 0 <= inner -> 0 < den p -> 0 <= num p -> num p <= 100 * den p -> group_px inner (Some (Pct p)) <= inner.
+Proof. exact group_le_inner. Qed.
+Theorem C10_group_cells_fit : forall g n, 0 <= g -> 0 < n -> n * (g / n) <= g.
+Proof. exact group_cells_fit. Qed.
+Theorem C10_group_column_follows_group : forall g n, 0 <= g -> 0 < n -> 2 * Z.abs (n * group_col_px g n - g) <= n.
+Proof. exact group_col_close. Qed.
+Theorem C10_group_fill_le_cell : forall g n c, 0 <= g -> 0 < n -> 0 <= cpl c -> 0 <= cpr c -> 0 <= ipl c -> 0 <= ipr c -> 0 <= ibw c ->
+  fill_width (col_content (group_col_px g n) (cpl c) (cpr c)) (ipl c) (ipr c) (ibw c) <= g / n + 1.
+Proof. exact group_fill_le_cell. Qed.
+
 (* full statement "sibling columns never sum to more than the box" refuted: 3 automatic columns in 500 px *)
 Theorem C10_sum_refuted : sum_px 500 [{| num := 100 ; den := 3 |}; {| num := 100 ; den := 3 |}; {| num := 100 ; den := 3 |}] = 501.
 Proof. exact sum_refuted. Qed.
@@ -50,3 +62,5 @@ Print Assumptions C10_outlook_eq_responsive.
 Print Assumptions C10_sum_partial.
 Print Assumptions C10_sum_exact.
 Print Assumptions C10_sum_refuted.
+Print Assumptions C10_group_column_follows_group.
+Print Assumptions C10_group_fill_le_cell.
